@@ -106,43 +106,25 @@ let run_hist = function
 
 let () = register "hist" run_hist
 
-(* TIE-H: the same run, results projected on what an HTTP answer shows: no log id, errors as "<status>:<errorCode>" *)
-let http_err = function
-  | M.EInsufficientFunds -> "400:INSUFFICIENT_FUND" | M.EReferenceConflict -> "409:CONFLICT"
-  | M.EIdempotencyInput -> "400:VALIDATION" | M.EAlreadyReverted -> "400:ALREADY_REVERT"
-  | M.ENotFound -> "404:NOT_FOUND" | M.ENoPostings -> "400:NO_POSTINGS"
-  | M.EMetadataOverride -> "400:METADATA_OVERRIDE"
-let result_sx_http = function
-  | M.ROk (_, t, hit) -> L [A "ok"; optz t; b01 hit]
-  | M.RErr e -> L [A "err"; S (http_err e)]
-let run_hist_http = function
-  | L [A "histh"; feat; L ops] ->
+(* TIE-H: the same run, results projected on what an HTTP answer shows (Ledger/HttpView.v [http_answer_of], extracted): status,
+   transaction id and hit flag of a success, "<status>:<errorCode>" of an error *)
+let z_str z = match zout z with A a -> a | S a -> a | _ -> failwith "zout"
+let http_err v e = let (st, c) = M.http_error v e in z_str st ^ ":" ^ string_of_chars c
+let answer_sx = function
+  | M.HOk (st, t, hit) -> L [A "ok"; zout st; optz t; b01 hit]
+  | M.HErr (st, c) -> L [A "err"; S (z_str st ^ ":" ^ string_of_chars c)]
+let run_hist_http_v v head = function
+  | L [A h; feat; L ops] when h = head ->
     let f = features_of feat in
     let rec go s ops acc = match ops with
       | [] -> List.rev acc
       | L [now; op] :: rest ->
-        (match M.step f (zarg now) s (op_of op) with
+        let o = op_of op in
+        (match M.step f (zarg now) s o with
          | M.SPanic -> List.rev (L [L [A "panic"]] :: acc)
-         | M.SR (s', r) -> go s' rest (L [result_sx_http r; state_sx s'] :: acc))
+         | M.SR (s', r) -> go s' rest (L [answer_sx (M.http_answer_of v o.M.o_in r); state_sx s'] :: acc))
       | _ -> failwith "bad step" in
     L [A "trace"; L (go M.init_state ops [])]
   | _ -> failwith "bad hist case"
-let () = register "histh" run_hist_http
-
-(* the v1 API maps a request without postings to VALIDATION *)
-(* ... and so does its script path for a metadata override (the v1 harness sends script creates through it) *)
-let http1_err = function M.ENoPostings | M.EMetadataOverride -> "400:VALIDATION" | e -> http_err e
-let () = register "histh1" (function
-  | L [A "histh1"; feat; L ops] ->
-    let f = features_of feat in
-    let rec go s ops acc = match ops with
-      | [] -> List.rev acc
-      | L [now; op] :: rest ->
-        (match M.step f (zarg now) s (op_of op) with
-         | M.SPanic -> List.rev (L [L [A "panic"]] :: acc)
-         | M.SR (s', r) ->
-           let rs = (match r with M.ROk (_, t, hit) -> L [A "ok"; optz t; b01 hit] | M.RErr e -> L [A "err"; S (http1_err e)]) in
-           go s' rest (L [rs; state_sx s'] :: acc))
-      | _ -> failwith "bad step" in
-    L [A "trace"; L (go M.init_state ops [])]
-  | _ -> failwith "bad hist case")
+let () = register "histh" (run_hist_http_v M.V2 "histh")
+let () = register "histh1" (run_hist_http_v M.V1 "histh1")
